@@ -845,6 +845,12 @@ class Ctx:
     def int(self, name, lo=None, hi=None):
         v = z3.Int(name)
         self.inputs[name] = v
+        nar = getattr(self.ex, 'narrow', None)
+        if nar and name in nar and lo is not None and hi is not None:
+            # range sharding: this worker decides the i-th of k consecutive parts of the declared range
+            i, k = nar[name]
+            n = hi - lo + 1
+            lo, hi = lo + (i * n) // k, lo + ((i + 1) * n) // k - 1
         self.input_meta[name] = ('int', lo, hi)
         if lo is not None and hi is not None:
             self.bounds[name] = (Fraction(lo), Fraction(hi))
